@@ -17,9 +17,13 @@ impl Address {
     pub(crate) async fn resolve(&self) -> std::io::Result<std::net::SocketAddr> {
         let address = self.to_owned();
 
-        tokio::task::spawn_blocking(move || address.resolve_blocking())
-            .await
-            .unwrap()
+        match tokio::task::spawn_blocking(move || address.resolve_blocking()).await {
+            Ok(result) => result,
+            // If the task panics, just propagate it
+            Err(e) if e.is_panic() => std::panic::resume_unwind(e.into_panic()),
+            // The blocking task was cancelled, i.e. the runtime is shutting down
+            Err(e) => Err(std::io::Error::other(e)),
+        }
     }
 
     fn resolve_blocking(&self) -> std::io::Result<std::net::SocketAddr> {
